@@ -216,9 +216,7 @@ P["C20"] = dict(
     technique="TLA+ model of the lock-protected registries (Registry.tla) checked by TLC over all interleavings; recorded "
               "histories of the real registries decided linearizable by TLC (RegistryTrace.tla); shared stateless "
               "components compared with sequential results under the Go race detector",
-    text="Versions.tla gives the sequential registry / version provider / namespace provider objects and every "
-         "transition of it is replayed on the real objects; "
-         "TLC verifies the lock design (mutual exclusion, linearization, termination) for 3 processes (thorough tier: "
+    text="TLC verifies the lock design (mutual exclusion, linearization, termination) for 3 processes (thorough tier: "
          "TLAPS proves the safety part for any number of processes, spec/proofs/RegistryProofs.tla); histories of real "
          "concurrent Add / Lookup calls are validated by TLC with the linearization point as a silent step; data-race "
          "freedom and result equality of the shared stateless components are observed with -race on the schedules "
@@ -262,7 +260,9 @@ def build(claimed, not_applicable):
         ],
         "checks": checks,
         "not_applicable": [{"property_id": k, "reason": v} for k, v in sorted(not_applicable.items())],
-        "notes": "Exit 2 of a check is an infrastructure failure (no verdict). known_findings.txt lists recorded / repaired defects.",
+        "notes": "Exit 2 of a check is an infrastructure failure (no verdict). known_findings.txt lists recorded / repaired defects. "
+                 "Beyond the listed properties: `./check EXT quick|thorough` replays the extension specifications (Versions.tla, "
+                 "VdrApi.tla) on the real code and reports NONCONFORMANCE (never a VIOLATION of a property); evidence in evidence_ext/.",
     }
 
 
